@@ -28,7 +28,7 @@ def check(ctx):
               "derives(type) = global derives extended by the entry registered for exactly this path (nothing else)", "scale_typegen")
     expect_fn(ctx, "C08.1", "resolve/for-type", "FlatDerivesRegistry::resolve_derives_for_type", "Ok(FlatDerivesRegistry::resolve(P0,utils::syn_type_path(P1)?))",
               "keyed by the type's own full path", "scale_typegen")
-    expect_fn(ctx, "C08.1", "resolve/path-key", "utils::syn_type_path", "Ok(syn::parse_str(slice::join(P0.path.segments,'::'))?)", "path key = all segments joined by `::`", "scale_typegen")
+    expect_fn(ctx, "C08.1", "resolve/path-key", "utils::syn_type_path", "syn::parse_str(slice::join(P0.path.segments,'::'))", "path key = all segments joined by `::`", "scale_typegen")
     expect_fn(ctx, "C08.1", "extend_from", "Derives::extend_from", "{Extend::extend(P0.derives,P1.derives);Extend::extend(P0.attributes,P1.attributes)}",
               "set union of derives and of attributes, no crossing", "scale_typegen")
     # use in the IR
@@ -186,7 +186,7 @@ def compact_as(ctx):
     if fn is not None:
         t = show(Norm(fn).term(fn["body"]))
         import re
-        m = re.fullmatch(r"match\(P0\.0\)\{TypePathInner::Type\(TypePathType::Primitive\{def:([^}]*)\}\)=>true;_=>false\}", t)
+        m = re.fullmatch(r"let TypePathInner::Type\(TypePathType::Primitive\{def:([^}]*)\}\)=P0\.0", t)
         got = sorted(m.group(1).replace("TypeDefPrimitive::", "").split("|")) if m else None
         ctx.expect(got == ["U128", "U16", "U32", "U64", "U8"], "C08.7", "compact-as/uint-set", fn["sp"], "pattern set = {U8, U16, U32, U64, U128} on a concrete primitive path",
                    "is_uint_up_to_u128 matches %s" % (got if got else t[:200]))
